@@ -120,17 +120,13 @@ pub(crate) mod verif_fd1 {
 
     /// FD1: decode_blocks against the scripted blocks, every strategy, every source length (truncation at every point)
     #[cfg(kani)]
-    #[kani::proof]
-    #[kani::unwind(6)]
-    #[kani::stub(crate::decoding::block_decoder::BlockDecoder::read_block_header, crate::decoding::block_decoder::verif_fd1b::stub_read_block_header)]
-    #[kani::stub(crate::decoding::block_decoder::BlockDecoder::decode_block_content, crate::decoding::block_decoder::verif_fd1b::stub_decode_block_content)]
-    #[kani::stub(crate::decoding::decode_buffer::DecodeBuffer::len, crate::decoding::decode_buffer::verif_fd1d::stub_len)]
-    fn fd1_decode_blocks() {
+    fn fd1_body<const MAXB: usize, const SRCN: usize>() {
         script();
+        unsafe { S_LAST[MAXB - 1] = true; }
         let flag: bool = kani::any();
-        let src: [u8; SRC] = kani::any();
+        let src: [u8; SRCN] = kani::any();
         let len: usize = kani::any();
-        kani::assume(len <= SRC);
+        kani::assume(len <= SRCN);
         let mut d = FrameDecoder::new();
         let st0 = state(flag);
         let (c0, b0, l0) = (st0.bytes_read_counter, st0.block_counter, unsafe { G_LEN });
@@ -148,7 +144,7 @@ pub(crate) mod verif_fd1 {
         let mut cks: Option<u32> = None;
         let mut err = false;
         let mut i = 0;
-        while i < 3 {
+        while i < MAXB {
             if len - pos < 3 { err = true; break; }
             if unsafe { S_HERR[i] } { err = true; break; }
             pos += 3;
@@ -188,6 +184,20 @@ pub(crate) mod verif_fd1 {
         core::mem::forget(r);
         core::mem::forget(d);
     }
+
+    macro_rules! fd1 {
+        ($name:ident, $b:expr, $s:expr) => {
+            #[cfg(kani)]
+            #[kani::proof]
+            #[kani::unwind(6)]
+            #[kani::stub(crate::decoding::block_decoder::BlockDecoder::read_block_header, crate::decoding::block_decoder::verif_fd1b::stub_read_block_header)]
+            #[kani::stub(crate::decoding::block_decoder::BlockDecoder::decode_block_content, crate::decoding::block_decoder::verif_fd1b::stub_decode_block_content)]
+            #[kani::stub(crate::decoding::decode_buffer::DecodeBuffer::len, crate::decoding::decode_buffer::verif_fd1d::stub_len)]
+            fn $name() { fd1_body::<$b, $s>(); }
+        };
+    }
+    fd1!(fd1_decode_blocks_2, 2, 14);
+    fd1!(fd1_decode_blocks_3, 3, 20);
 
     /// stand-in for the final drain inside decode_from_to (draining is D1/D2's statement; here only source accounting matters)
     fn stub_fd_read(_d: &mut FrameDecoder, _target: &mut [u8]) -> Result<usize, Error> {
@@ -268,6 +278,7 @@ pub(crate) mod verif_fd1 {
     }
 }
 //@end
-//@harness fd1_decode_blocks kind=proof fn=FrameDecoder::decode_blocks props=C10,C06,C05,C03 tier=quick bound="<= 3 blocks per call, block bodies <= 4 bytes, source <= 20 bytes (every truncation point)" timeout=2400
+//@harness fd1_decode_blocks_2 kind=proof fn=FrameDecoder::decode_blocks props=C10,C06,C05,C03,C08 tier=quick bound="<= 2 blocks per call, block bodies <= 4 bytes, source <= 14 bytes (every truncation point)" timeout=2400
+//@harness fd1_decode_blocks_3 kind=proof fn=FrameDecoder::decode_blocks props=C10,C06,C05,C03 tier=thorough bound="<= 3 blocks per call, block bodies <= 4 bytes, source <= 20 bytes (every truncation point)" timeout=3600 heavy=yes
 //@assume NOT RUN: harness fd2_decode_from_to (decode_from_to accounting) exhausts CBMC memory (14 GB) in every variant tried; it is kept in the file but not registered. The DF1 defect it targets was confirmed natively and repaired.
 //@assume in fd1_/fd2_ harnesses BlockDecoder::read_block_header and ::decode_block_content are contract stubs handing out scripted (symbolic) blocks; their own contracts are H1 and B1; DecodeBuffer::len is a ghost counter in fd1_decode_blocks
